@@ -132,10 +132,11 @@ type Ctx struct {
 	Funs  map[string]string // uninterpreted function declarations: name -> decl line
 	FunOrder []string
 	Owner any // back-pointer for the interpreter's path state
+	linMemo map[*Term]*linForm
 }
 
 func NewCtx() *Ctx {
-	return &Ctx{tab: map[string]*Term{}, varBy: map[string]*Term{}, Funs: map[string]string{}}
+	return &Ctx{tab: map[string]*Term{}, varBy: map[string]*Term{}, Funs: map[string]string{}, linMemo: map[*Term]*linForm{}}
 }
 
 func (c *Ctx) mk(op Op, s Sort, val uint64, name string, p1, p2 int, args ...*Term) *Term {
@@ -327,6 +328,16 @@ func (c *Ctx) Eq(a, b *Term) *Term {
 	if a.IsConst() && b.IsConst() {
 		return c.BoolC(a.Val == b.Val)
 	}
+	if a.Sort.K == SBV && a.Sort.W <= 64 && (isLinOp(a) || isLinOp(b)) {
+		d := c.linOf(a).combine(c.linOf(b), mask(a.Sort.W), a.Sort.W)
+		if len(d.atoms) == 0 {
+			return c.BoolC(d.k == 0)
+		}
+		if len(d.atoms) == 1 && d.atoms[0].coeff == 1 {
+			// x + k == 0  <=>  x == -k
+			return c.Eq(d.atoms[0].t, c.BVC(a.Sort.W, -d.k))
+		}
+	}
 	if a.Sort.K == SBool {
 		if a.IsConst() {
 			if a.Val == 1 {
@@ -368,6 +379,9 @@ func (c *Ctx) BvNeg(a *Term) *Term {
 	if a.IsConst() {
 		return c.BVC(a.Sort.W, -a.Val)
 	}
+	if a.Sort.W <= 64 {
+		return c.linBuild(c.linOf(a).scale(mask(a.Sort.W), a.Sort.W), a.Sort.W)
+	}
 	return c.mk(OBvNeg, a.Sort, 0, "", 0, 0, a)
 }
 
@@ -376,6 +390,21 @@ func (c *Ctx) bin(op Op, a, b *Term) *Term {
 		panic(fmt.Sprintf("smt: binop %d sort mismatch %v vs %v", op, a.Sort, b.Sort))
 	}
 	w := a.Sort.W
+	if w <= 64 && !(a.IsConst() && b.IsConst()) {
+		switch op {
+		case OBvAdd:
+			return c.linBuild(c.linOf(a).combine(c.linOf(b), 1, w), w)
+		case OBvSub:
+			return c.linBuild(c.linOf(a).combine(c.linOf(b), mask(w), w), w)
+		case OBvMul:
+			if a.IsConst() {
+				return c.linBuild(c.linOf(b).scale(a.Val, w), w)
+			}
+			if b.IsConst() {
+				return c.linBuild(c.linOf(a).scale(b.Val, w), w)
+			}
+		}
+	}
 	if a.IsConst() && b.IsConst() && w <= 64 {
 		x, y := a.Val, b.Val
 		sx, sy := a.sval(), b.sval()
@@ -1000,3 +1029,141 @@ func Size(t *Term) int {
 }
 
 var _ = bits.Len
+
+// ---- linear normal form for bvadd/bvsub/bvneg/bvmul-by-constant (width <= 64) ----
+
+type linAtom struct {
+	t     *Term
+	coeff uint64
+}
+
+type linForm struct {
+	atoms []linAtom // sorted by term ID, coeff != 0
+	k     uint64
+}
+
+func isLinOp(t *Term) bool {
+	switch t.Op {
+	case OBvAdd, OBvSub, OBvNeg:
+		return true
+	case OBvMul:
+		return t.Args[0].IsConst() || t.Args[1].IsConst()
+	}
+	return false
+}
+
+func (c *Ctx) linOf(t *Term) *linForm {
+	if t.IsConst() {
+		return &linForm{k: t.Val}
+	}
+	if !isLinOp(t) {
+		return &linForm{atoms: []linAtom{{t, 1}}}
+	}
+	if l, ok := c.linMemo[t]; ok {
+		return l
+	}
+	w := t.Sort.W
+	var l *linForm
+	switch t.Op {
+	case OBvAdd:
+		l = c.linOf(t.Args[0]).combine(c.linOf(t.Args[1]), 1, w)
+	case OBvSub:
+		l = c.linOf(t.Args[0]).combine(c.linOf(t.Args[1]), mask(w), w)
+	case OBvNeg:
+		l = c.linOf(t.Args[0]).scale(mask(w), w)
+	case OBvMul:
+		if t.Args[0].IsConst() {
+			l = c.linOf(t.Args[1]).scale(t.Args[0].Val, w)
+		} else {
+			l = c.linOf(t.Args[0]).scale(t.Args[1].Val, w)
+		}
+	}
+	c.linMemo[t] = l
+	return l
+}
+
+// combine returns a + f*b (mod 2^w).
+func (a *linForm) combine(b *linForm, f uint64, w int) *linForm {
+	m := mask(w)
+	r := &linForm{k: (a.k + f*b.k) & m}
+	i, j := 0, 0
+	for i < len(a.atoms) || j < len(b.atoms) {
+		switch {
+		case j >= len(b.atoms) || (i < len(a.atoms) && a.atoms[i].t.ID < b.atoms[j].t.ID):
+			r.atoms = append(r.atoms, a.atoms[i])
+			i++
+		case i >= len(a.atoms) || b.atoms[j].t.ID < a.atoms[i].t.ID:
+			if cf := (f * b.atoms[j].coeff) & m; cf != 0 {
+				r.atoms = append(r.atoms, linAtom{b.atoms[j].t, cf})
+			}
+			j++
+		default:
+			if cf := (a.atoms[i].coeff + f*b.atoms[j].coeff) & m; cf != 0 {
+				r.atoms = append(r.atoms, linAtom{a.atoms[i].t, cf})
+			}
+			i++
+			j++
+		}
+	}
+	return r
+}
+
+func (a *linForm) scale(f uint64, w int) *linForm {
+	m := mask(w)
+	r := &linForm{k: (a.k * f) & m}
+	for _, at := range a.atoms {
+		if cf := (at.coeff * f) & m; cf != 0 {
+			r.atoms = append(r.atoms, linAtom{at.t, cf})
+		}
+	}
+	return r
+}
+
+// linBuild rebuilds a canonical term from a linear form.
+func (c *Ctx) linBuild(l *linForm, w int) *Term {
+	m := mask(w)
+	var acc *Term
+	s := BV(w)
+	// positive (coeff != -1) atoms first, then subtractions
+	for _, at := range l.atoms {
+		if at.coeff == m {
+			continue
+		}
+		var x *Term
+		if at.coeff == 1 {
+			x = at.t
+		} else {
+			x = c.mk(OBvMul, s, 0, "", 0, 0, c.BVC(w, at.coeff), at.t)
+		}
+		if acc == nil {
+			acc = x
+		} else {
+			acc = c.mk(OBvAdd, s, 0, "", 0, 0, acc, x)
+		}
+	}
+	if l.k != 0 {
+		kc := c.BVC(w, l.k)
+		if acc == nil {
+			acc = kc
+		} else {
+			acc = c.mk(OBvAdd, s, 0, "", 0, 0, acc, kc)
+		}
+	}
+	for _, at := range l.atoms {
+		if at.coeff != m {
+			continue
+		}
+		if acc == nil {
+			acc = c.mk(OBvNeg, s, 0, "", 0, 0, at.t)
+		} else {
+			acc = c.mk(OBvSub, s, 0, "", 0, 0, acc, at.t)
+		}
+	}
+	if acc == nil {
+		return c.BVC(w, 0)
+	}
+	if _, ok := c.linMemo[acc]; !ok && isLinOp(acc) {
+		c.linMemo[acc] = l
+	}
+	return acc
+}
